@@ -348,8 +348,16 @@ func (vc *VC) havocHeap(st *State, name string) {
 	if info == nil {
 		return
 	}
+	prev, hadPrev := st.heaps[name]
 	st.heaps[name] = vc.fresh("hv:"+strings.Trim(name, "|"), info.Sort)
 	vc.refFacts(info, st.heaps[name], st.wm)
+	if hadPrev && strings.HasPrefix(name, "|GH:") {
+		if g := vc.specs.ghost(strings.TrimSuffix(strings.TrimPrefix(name, "|GH:"), "|")); g != nil && g.Counter && g.Elem == "int" {
+			// ghost counters only grow, whatever an unknown callee does
+			nv := sel(st.heaps[name], Term{"gk", SInt})
+			vc.lines = append(vc.lines, fmt.Sprintf("(assert (forall ((gk Int)) (! (>= %s %s) :pattern (%s))))", nv.S, sel(prev, Term{"gk", SInt}).S, nv.S))
+		}
+	}
 }
 
 // refFacts states that every reference stored in a (fresh version of a) heap
